@@ -6,6 +6,7 @@ package main
 // executed symbolically (on concrete data) on the base state.
 
 import (
+	"go/types"
 	"strings"
 
 	"golang.org/x/tools/go/ssa"
@@ -58,6 +59,9 @@ func (ex *Exec) RunGlobalInit(key string) string {
 		}
 		fn := findGlobalInitializerCall(g)
 		if fn == nil {
+			if sl := findGlobalInitSlice(g); sl != nil {
+				return ex.runInitSlice(g, sl)
+			}
 			return "no initialiser call"
 		}
 		saved := ex.Pinned
@@ -85,4 +89,177 @@ func snapIsOpaque(snap interface{}) bool {
 	}
 	k, _ := m["k"].(string)
 	return k == "opaque"
+}
+
+// ---- slice-based initialisation
+//
+// For a global whose initialiser is not a single call (composite literals, `[]byte{0xf5}`,
+// `big.NewInt(1)`, struct literals with func fields, ...) the instructions of the package's init
+// that the stored value depends on are executed alone, in program order: the backward slice of the
+// stores into the global, plus the stores into every allocation that is part of the slice.
+
+func rootOfAddr(v ssa.Value) ssa.Value {
+	for {
+		switch a := v.(type) {
+		case *ssa.FieldAddr:
+			v = a.X
+		case *ssa.IndexAddr:
+			v = a.X
+		default:
+			return v
+		}
+	}
+}
+
+func findGlobalInitSlice(g *ssa.Global) []ssa.Instruction {
+	initFn := g.Pkg.Func("init")
+	if initFn == nil {
+		return nil
+	}
+	var all []ssa.Instruction
+	for _, b := range initFn.Blocks {
+		all = append(all, b.Instrs...)
+	}
+	needed := map[ssa.Instruction]bool{}
+	var addValue func(v ssa.Value) bool
+	var addInstr func(in ssa.Instruction) bool
+	addInstr = func(in ssa.Instruction) bool {
+		if needed[in] {
+			return true
+		}
+		switch in.(type) {
+		case *ssa.Phi, *ssa.If, *ssa.Jump, *ssa.Return, *ssa.Panic, *ssa.Defer, *ssa.Go, *ssa.Select, *ssa.Range, *ssa.Next:
+			return false
+		}
+		needed[in] = true
+		for _, op := range in.Operands(nil) {
+			if *op != nil && !addValue(*op) {
+				return false
+			}
+		}
+		return true
+	}
+	addValue = func(v ssa.Value) bool {
+		in, ok := v.(ssa.Instruction)
+		if !ok || in.Parent() != initFn {
+			return true // constants, globals, functions
+		}
+		return addInstr(in)
+	}
+	found := false
+	for _, in := range all {
+		if s, ok := in.(*ssa.Store); ok && rootOfAddr(s.Addr) == ssa.Value(g) {
+			found = true
+			if !addInstr(s) {
+				return nil
+			}
+		}
+	}
+	if !found {
+		return nil
+	}
+	// stores / map updates into objects that are part of the slice (to a fixpoint)
+	for changed := true; changed; {
+		changed = false
+		for _, in := range all {
+			if needed[in] {
+				continue
+			}
+			var target ssa.Value
+			switch s := in.(type) {
+			case *ssa.Store:
+				target = rootOfAddr(s.Addr)
+			case *ssa.MapUpdate:
+				target = s.Map
+			default:
+				continue
+			}
+			ti, ok := target.(ssa.Instruction)
+			if !ok || !needed[ti] {
+				continue
+			}
+			if !addInstr(in) {
+				return nil
+			}
+			changed = true
+		}
+	}
+	var res []ssa.Instruction
+	for _, in := range all {
+		if needed[in] {
+			res = append(res, in)
+		}
+	}
+	if len(res) > 4000 {
+		return nil
+	}
+	return res
+}
+
+// runInitSlice executes the slice on the base state.
+func (ex *Exec) runInitSlice(g *ssa.Global, slice []ssa.Instruction) string {
+	initFn := g.Pkg.Func("init")
+	st := ex.Base
+	// the global's object must exist to be stored into
+	gt := g.Type().Underlying().(*types.Pointer).Elem()
+	st.Heap[ex.globalObjID(g)] = ex.zeroSafe(gt)
+	fr := &Frame{Fn: initFn, St: st, Env: map[ssa.Value]Value{}, SymIter: map[ssa.Instruction]int{}, Depth: 1}
+	saved := ex.Pinned
+	ex.Pinned = nil
+	defer func() { ex.Pinned = saved }()
+	for _, in := range slice {
+		fr.Block = in.Block()
+		fr.Idx = -1
+		for i, x := range fr.Block.Instrs {
+			if x == in {
+				fr.Idx = i
+			}
+		}
+		if fr.Idx < 0 {
+			return "internal: instruction not in its block"
+		}
+		var work []*Frame
+		var outs []Outcome
+		cont := ex.stepGuarded(fr, &work, &outs)
+		if len(outs) > 0 {
+			if outs[0].Kind == OAbort {
+				return outs[0].Abort
+			}
+			return "initialiser panicked"
+		}
+		if !cont {
+			if len(work) != 1 {
+				return "initialiser forked"
+			}
+			fr = work[0]
+		}
+	}
+	ex.Base = fr.St
+	return ""
+}
+
+// RunGlobalInitDeep: an initialiser that reads another uninitialised global (or touches a package
+// that needs its lazy init) gets that dependency initialised first, then is retried.
+func (ex *Exec) RunGlobalInitDeep(key string, depth int) string {
+	msg := ex.RunGlobalInit(key)
+	for tries := 0; tries < 12 && strings.HasPrefix(msg, "NEEDINIT: "); tries++ {
+		if depth > 6 {
+			return msg
+		}
+		dep := strings.TrimPrefix(msg, "NEEDINIT: ")
+		if i := strings.Index(dep, " in "); i >= 0 {
+			dep = dep[:i]
+		}
+		var dmsg string
+		if strings.HasPrefix(dep, "global:") {
+			dmsg = ex.RunGlobalInitDeep(strings.TrimPrefix(dep, "global:"), depth+1)
+		} else {
+			dmsg = ex.RunPkgInit(dep)
+		}
+		if dmsg != "" {
+			return dmsg
+		}
+		msg = ex.RunGlobalInit(key)
+	}
+	return msg
 }
